@@ -107,6 +107,51 @@ def run(src, tier, seed):
         else:
             res.bad(r, 'stp-informed-before-accept', fx.loc(f), '%s marks the atom as known before parseRef has accepted it (%s): a rejected atom is silently skipped by the next declareAtom '
                     'and asserting it later dereferences an unmapped edge' % (short, order))
+    # ---- R1b a rejection leaves no scratch state behind
+    r = res.rule('rejection-leaves-no-scratch', 'CoreSMTSolver::declareVarsToTheories is left by an exception when the gate rejects an atom, so every member array it marks while walking '
+                 'the atoms is reset at its entry (clean before use, never clean after use), and the theory handler is cleared before the first declareAtom', floor=2)
+    dv = fx.func('opensmt::CoreSMTSolver::declareVarsToTheories')
+    nodes = list(fwalk(dv))
+    first_decl = next((i for i, n in enumerate(nodes) if is_call(n, 'declareAtom')), None)
+    first_clear = next((i for i, n in enumerate(nodes) if is_call(n, 'clear') and (recv_path(n) or '').endswith('theory_handler')), None)
+    if first_decl is None:
+        raise AnalysisBroken('declareVarsToTheories no longer calls declareAtom')
+    if first_clear is not None and first_clear < first_decl:
+        res.ok(r, 'theory_handler.clear() precedes every declareAtom')
+    else:
+        res.bad(r, 'no-clear-before-declare', fx.loc(dv), 'declareVarsToTheories no longer clears the theory handler before declaring atoms: atoms recorded by an aborted earlier call are kept')
+    from prims import as_assign
+    from facts import path_of
+    written = {}
+    for i, n in enumerate(nodes):
+        aa = as_assign(n)
+        if aa:
+            pth = path_of(aa[0])
+            if pth and pth.startswith('this.') and pth.endswith('[]'):
+                written.setdefault(pth[:-2], []).append(i)
+    n_arr = 0
+    for S, ws in sorted(written.items()):
+        if not any(w < max(i for i, n in enumerate(nodes) if is_call(n, 'declareAtom')) for w in ws):
+            continue
+        n_arr += 1
+        # first access to S: must be the reset loop  for (i < S.size()) S[i] = <literal>
+        first = next((i for i, n in enumerate(nodes) if (n.get('k') in ('idx',) or (n.get('k') == 'call' and n.get('op') == '[]')) and path_of(n) == S + '[]'), None)
+        reset_ok = False
+        for lp in (x for x in walk(dv['body']) if x.get('k') == 'loop'):
+            body_nodes = list(walk(lp['body']))
+            asg = [as_assign(x) for x in body_nodes if isinstance(x, dict) and as_assign(x)]
+            if len(asg) == 1 and path_of(asg[0][0]) == S + '[]' and isinstance(see_through(asg[0][1]), dict) and see_through(asg[0][1]).get('k') == 'lit' and \
+                    S.split('.')[-1] in str(lp.get('cond')) and first is not None and any(y is nodes[first] for y in body_nodes):
+                reset_ok = True
+        if reset_ok:
+            res.ok(r, '%s: reset loop at entry precedes every use' % S)
+        else:
+            res.bad(r, 'scratch-not-reset-first:%s' % S.split('.')[-1], fx.loc(dv, nodes[first].get('ln') if first is not None else None),
+                    'declareVarsToTheories marks %s while walking the atoms but does not reset it before its first use: when the gate rejects an atom (exception), the marks of the aborted call survive, '
+                    'the next check-sat skips those atoms and answers without their constraints' % S)
+    if n_arr == 0:
+        raise AnalysisBroken('declareVarsToTheories: no member array marked before declareAtom (model drifted)')
+
     # ---- R2 upstream gates
     r = res.rule('upstream-gates', 'TSolverHandler::declareAtom forwards an atom to a solver only under solver->isValid(tr); STPSolver<T>::isValid and LASolver::isValid are the <=-test', floor=3)
     da = fx.func('opensmt::TSolverHandler::declareAtom')
